@@ -25,6 +25,16 @@ pub trait MetricLogReader {
     ) -> Result<MetricItemVec>;
 }
 
+/// Reads one line (separator included) and converts it lossily: a line that is not valid UTF-8,
+/// e.g. the last line of a file whose writer died inside a multi-byte character, is handed over
+/// as an unparsable line instead of failing the whole search.
+fn read_line_lossy<R: BufRead>(reader: &mut R, line: &mut String) -> std::io::Result<usize> {
+    let mut buf = Vec::new();
+    let count = reader.read_until(b'\n', &mut buf)?;
+    line.push_str(&String::from_utf8_lossy(&buf));
+    Ok(count)
+}
+
 // Not thread-safe itself, but guarded by the outside MetricSearcher.
 #[derive(Default)]
 pub struct DefaultMetricLogReader {}
@@ -48,7 +58,7 @@ impl DefaultMetricLogReader {
         let mut last_sec = last_sec;
         loop {
             let mut line = String::new();
-            let count = buf_reader.read_line(&mut line)?;
+            let count = read_line_lossy(&mut buf_reader, &mut line)?;
             if count == 0 {
                 // end of file: hand over what has been read so far
                 let should_continue = (prev_size + items.len()) < max_lines;
@@ -87,14 +97,16 @@ impl DefaultMetricLogReader {
         let end_sec = end_ms / 1000;
         let file = open_file_and_seek_to(filename, offset)?;
 
-        let buf_reader = BufReader::new(file);
+        let mut buf_reader = BufReader::new(file);
         let mut items = Vec::with_capacity(1024);
 
-        let lines = buf_reader.lines();
-
-        for line in lines {
-            let line = line?;
-            let item = match base::MetricItem::from_string(&line) {
+        loop {
+            let mut line = String::new();
+            if read_line_lossy(&mut buf_reader, &mut line)? == 0 {
+                break;
+            }
+            let line = line.trim_end_matches(|c| c == '\n' || c == '\r');
+            let item = match base::MetricItem::from_string(line) {
                 Ok(item) => item,
                 Err(err) => {
                     logging::error!("Failed to convert to MetricItem: {:?}", err);
